@@ -94,7 +94,11 @@ pub fn check_value(t: &Table, e: &TypeEntry, idx: usize, shape: &str, v: &Val) -
         let kind = inner.sig.split("kind=").nth(1).unwrap_or("").to_string();
         let sig = format!("C12 cond={cond} kind={kind}");
         input["sig"] = json!(sig);
-        Violation::new("lab", sig, format!("struct {} [{shape}]\n  {}", e.name, inner.detail), input)
+        let hint = match (inner.input.get("path"), inner.input.get("edit")) {
+            (Some(p), Some(ed)) => format!("\n  edit {ed} at level {p}"),
+            _ => String::new(),
+        };
+        Violation::new("lab", sig, format!("struct {} [{shape}]\n  {}{hint}", e.name, inner.detail), input)
     };
     // C01 + C03 conditions
     let r = c01::codec_case(t, e, v);
